@@ -250,9 +250,10 @@ def run(chk, failed):
     chk.assumptions += [
         "path -> (route, params) is httprouter v1.3.0's matching (trusted); the model's dispatch is compared with router.Lookup on every case; "
         "httprouter's own 301/307/405/OPTIONS answers are router-level and accepted",
-        "the storage/evaluator subsystems are an abstract backend; theorems assume Http.backend_typed, whose storage half is proved from "
-        "Storage.step's reply constructors (HttpProofs.storage_backend_typed) given that FetchConsumer does not panic (C08/F6), and whose "
-        "evaluator half (non-nil status, finite float32) is assumed",
+        "the handler theorems are stated over an abstract backend that keeps Http.backend_typed; that contract is discharged for the "
+        "composed storage+evaluator backend of every reachable storage state (HttpProofs.backend_typed_reachable: run of a well-formed "
+        "history, 1 <= intervals <= 2^24, at most 2^24 partitions per group) -- the evaluator's cache is covered as 'the same function at "
+        "an earlier reachable state' (C05), not modelled here",
         "the evaluator turns an evaluator request into StorageFetchConsumer for the same pair (evaluator/caching.go); checked at run time by the "
         "storage-backed cases, not by a table",
         "viper lookup as modelled: keys lower-cased (ASCII), '.'-separated descent through nested maps; configuration keys contain no '.', no U+212A/U+0130",
